@@ -391,15 +391,15 @@ Definition writes_elsewhere : list (string * write) := [
   ("setSpecial", mkW "argc" Whole "v" false);
   ("setSpecial", mkW "convertFormat" Whole "p.toString(v)" false);
   ("setSpecial", mkW "filename" Whole "v" false);
-  ("setSpecial", mkW "fieldSep" Whole "p.toString(v)" false);
   ("setSpecial", mkW "fieldSepRegex" Whole "re" false);
+  ("setSpecial", mkW "fieldSep" Whole "fieldSep" false);
   ("setSpecial", mkW "outputFormat" Whole "p.toString(v)" false);
   ("setSpecial", mkW "outputFieldSep" Whole "p.toString(v)" false);
   ("setSpecial", mkW "outputRecordSep" Whole "p.toString(v)" false);
-  ("setSpecial", mkW "recordSep" Whole "p.toString(v)" false);
   ("setSpecial", mkW "recordSepRegex" Whole "regexp.MustCompile(sep)" false);
   ("setSpecial", mkW "recordSepRegex" Whole "regexp.MustCompile(sep)" false);
   ("setSpecial", mkW "recordSepRegex" Whole "re" false);
+  ("setSpecial", mkW "recordSep" Whole "recordSep" false);
   ("setSpecial", mkW "recordTerminator" Whole "p.toString(v)" false);
   ("setSpecial", mkW "subscriptSep" Whole "p.toString(v)" false);
   ("setSpecial", mkW "inputMode" Whole "parseInputMode(p.toString(v)) #0" false);
